@@ -229,6 +229,8 @@ def verify(spec):
             traceback.print_exc()
         res.error = ('out-of-subset', str(e))
     except CheckerError as e:
+        if os.environ.get('PYVC_TB'):
+            traceback.print_exc()
         res.error = ('checker-error', str(e))
     except BaseException as e:          # pylint: disable=broad-except
         res.error = ('crash', '%s: %s\n%s' % (type(e).__name__, e, traceback.format_exc(limit=12)))
